@@ -65,10 +65,18 @@ def patch(
 
     std_targets = ["snowflake.connector.connect", "snowflake.connector.pandas_tools.write_pandas"]
 
+    targets = std_targets + list([extra_targets] if isinstance(extra_targets, str) else extra_targets)
+
+    # import modules that aren't loaded yet before patching anything, otherwise their from-imports bind the
+    # mocks of the standard targets, which can't be undone on exit and would linger as stale fakes
+    for im in targets:
+        if (module_name := ".".join(im.split(".")[:-1])) not in sys.modules:
+            importlib.import_module(module_name)
+
     stack = contextlib.ExitStack()
 
     try:
-        for im in std_targets + list([extra_targets] if isinstance(extra_targets, str) else extra_targets):
+        for im in targets:
             module_name = ".".join(im.split(".")[:-1])
             fn_name = im.split(".")[-1]
             # get module or try to import it if not loaded yet
